@@ -42,15 +42,15 @@ CHECKS += [
          text='Decides the wiring of split() on every returning path (data = join of token frames, start = start index x effective window, parameters from the tokenized source, lazy generator, argument roles). Byte equality is the composition C01 o C10 (argued).',
          note=STRUCT_NOTE),
     dict(id='C06', engine='E4-provenance', level='other', design_ref='DESIGN.md 4.6, B.2',
-         technique='static analysis: provenance of the three duration->window conversions (rounding function, sign of tolerance, window source) and guard-table extraction of split() by path enumeration',
+         technique='static analysis: provenance of the three duration->window conversions (rounding function, sign of tolerance, window source) and guard-table extraction of split() by path enumeration; formula identity of the durations the readers report (block_dur / hop_dur = size / rate)',
          text='Decides rounding direction and tolerance sign at the conversion sites, the window source, and that split() raises ValueError exactly for the documented guards. Float numerics are not decided.',
          note=STRUCT_NOTE),
     dict(id='C08', engine='E3-tokenizer + E4', level='other', design_ref='DESIGN.md 4.8',
-         technique='static analysis: abstract interpretation events (one read per iteration, same-iteration hand-over, single end-of-stream, latency bound as entailment) plus structural laziness rules on tokenize()/split()',
+         technique='static analysis: abstract interpretation events (one read per iteration, same-iteration hand-over, single end-of-stream, latency bound as entailment) plus structural laziness rules on tokenize()/split() and a one-inner-read-per-call rule over the reader wrappers under split()',
          text='Proves one read per iteration, hand-over in the deciding iteration, the latency bound max(K,0)+1 and single end-of-stream read for all states; decides that tokenize modes are thin wrappers and split() is lazy.',
          note=TOK_NOTE),
     dict(id='C10', engine='E5-nullness + E4', level='other', design_ref='DESIGN.md 3.5, 4.10',
-         technique='static analysis: nullness dataflow of read() results over the reader stack, provenance of block/hop/limiter formulas, wrapper nesting on all configuration paths, guard extraction',
+         technique='static analysis: nullness dataflow of read() results over the reader stack, provenance of block/hop/limiter formulas, wrapper nesting on all configuration paths, guard extraction; one inner read per read() call (never in a loop); reported durations as formulas; buffered-open rule for files read as audio',
          text='Decides that no read() result is dereferenced unguarded in the reader stack, the framing formulas (int(block_dur*rate), hop bytes, min(budget, size), round(max_read*rate)), wrapper nesting and rejections. Concatenation equality is not computed.',
          note=STRUCT_NOTE),
     dict(id='C20', engine='E3-tokenizer + E6-effects', level='other', design_ref='DESIGN.md 4.20',
@@ -64,23 +64,23 @@ CHECKS += [
          text='Decides the formula shape (>=, 10*log10(mean square, last axis), -200 dB floor), the decoding table, the de-interleave, max-aggregation for None/any, and the selector guard region [-channels, channels). numpy numerics are not decided.',
          note=STRUCT_NOTE),
     dict(id='C09', engine='E4-provenance', level='other', design_ref='DESIGN.md 4.9, B.3',
-         technique='static analysis: census of every alias-key read (long-name-wins idiom), source-factory dispatch by path enumeration, limiter formulas, role rule',
+         technique='static analysis: census of every alias-key read (long-name-wins idiom), source-factory dispatch by path enumeration, limiter formulas, role rule; the format-guessing helper evaluated path-wise on a grid of file names and explicit formats against its documented behaviour',
          text='Decides that every short alias is read only as fallback of its long name, that split() normalises what it hands down, the container dispatch (stdin/bytes/file x raw/wav x lazy/eager) and the max_read limiter formulas. Equality of region lists across containers is not computed.',
          note=STRUCT_NOTE),
     dict(id='C11', engine='E4-provenance', level='other', design_ref='DESIGN.md 4.11',
-         technique='static analysis: sibling agreement of all read() implementations resolved through the MRO (open-check first, never empty bytes, whole-sample request); buffer source decided operation by operation as Hoare triples over its extracted paths (helpers, property getters/setters inlined), discharged by evaluating path conditions, results and field updates as formulas on finite grids; role rule',
+         technique='static analysis: sibling agreement of all read() implementations resolved through the MRO (open-check first, never empty bytes, whole-sample request); buffer source decided operation by operation as Hoare triples over its extracted paths (helpers, property getters/setters inlined), discharged by evaluating path conditions, results and field updates as formulas on finite grids (field stores forwarded to later loads on a path; rewind on open and closed sources); open/close typestate of every source with super() and hooks followed; buffered-open rule; role rule',
          text='Decides per-operation facts for all 5 concrete sources (open test first -> AudioIOError, None-or-non-empty results, size*width*channels requests, cursor arithmetic, position setter/guards, rewind/close). History equivalence as a whole is argued from these facts.',
          note=STRUCT_NOTE),
     dict(id='C16', engine='E4-provenance', level='other', design_ref='DESIGN.md 4.16',
-         technique='static analysis: path enumeration of the three slicing functions with helpers inlined; per path, the extracted bound terms are evaluated as formulas on finite grids (bounds None/negative/out of range, 1-2 byte samples, 1-2 channels; fractional seconds at 8 Hz-44.1 kHz) and compared with Python slice semantics on whole samples; type guards by selecting the path an invalid index takes',
+         technique='static analysis: path enumeration of the three slicing functions with helpers inlined; per path, the extracted bound terms are evaluated as formulas on finite grids (bounds None/negative/out of range, 1-2 byte samples, 1-2 channels; fractional seconds at 8 Hz-44.1 kHz) and compared with Python slice semantics on whole samples; type guards by selecting the path an invalid index takes; __len__ evaluated through its inlined paths incl. float-edge (samples, rate) pairs',
          text='Decides that both byte bounds are sample index x bytes-per-sample with only behaviour-preserving normalisations, the TypeError guards, len, and the int/round conversions of the time views. The float claim "within one sample period" is not decided.',
          note=STRUCT_NOTE),
     dict(id='C17', engine='E4-provenance + E6-effects', level='other', design_ref='DESIGN.md 4.17',
-         technique='static analysis: operator provenance terms, exhaustiveness of the compatibility check over {rate,width,channels}, frozen-dataclass and who-may-setattr census, write-effect analysis of all operators',
+         technique='static analysis: operator provenance terms, exhaustiveness of the compatibility check over {rate,width,channels}, frozen-dataclass and who-may-setattr census, write-effect analysis of all operators; the checked iterable of join decided on every path of its generator / iterator class',
          text='Decides byte-level provenance of + * join make_silence, the parameter check coverage and placement, equality fields, immutability (frozen, no operand writes), and contiguity/length shape of division pieces. Piece-count arithmetic is not decided.',
          note=STRUCT_NOTE),
     dict(id='C18', engine='E4-provenance + E5-nullness', level='other', design_ref='DESIGN.md 4.18',
-         technique='static analysis: role agreement of wave writer/reader, to_file dispatch, save() placeholder provenance and exists_ok test-before-write on every path, skip/max_read conversion formulas and read order, nullness of the loaded data',
+         technique='static analysis: role agreement of wave writer/reader, to_file dispatch, save() placeholder provenance and exists_ok test-before-write on every path, skip/max_read conversion formulas and read order, nullness of the loaded data; format-guessing helper on a grid',
          text='Decides writer/reader role agreement, format dispatch, placeholder sources, overwrite refusal before writing, round(skip*rate)/round(max_read*rate) and that no None reaches AudioRegion. Round-trip equality as a value is not computed.',
          note=STRUCT_NOTE),
  ]
@@ -88,7 +88,7 @@ WORK_NOTE = ("Decides protocol facts of the worker design from the source (messa
              "relying on queue.Queue (unbounded FIFO, thread-safe, put never blocks) and Thread.join semantics. Interleavings and crash points are NOT enumerated.")
 CHECKS += [
     dict(id='C12', engine='E3-fd traces', level='other', design_ref='DESIGN.md 4.12, B.6',
-         technique='static analysis: finite-domain path enumeration of the worker loops (message in {NONE, STOP, DATA}), inbox discipline census, call-order rules, class-table exhaustiveness',
+         technique='static analysis: finite-domain path enumeration of the worker loops (message in {NONE, STOP, DATA}), inbox discipline census, call-order rules, class-table exhaustiveness; kind of the stop-marker value; provenance of the keywords handed to split(); numbering of detections; the detections view',
          text='Decides the ten protocol facts F1-F10 (unbounded own inbox, timeout on every blocking get, loop cases, notify-all once per detection then STOP, stop=send then join, no self-join, every worker has the hook). Schedules are not explored.',
          note=WORK_NOTE),
     dict(id='C19', engine='E9-typestate + E4-provenance + E6-effects', level='other', design_ref='DESIGN.md 4.19, 10.5e',
@@ -98,7 +98,7 @@ CHECKS += [
  ]
 CHECKS += [
     dict(id='C13', engine='E3-fd traces', level='other', design_ref='DESIGN.md 4.13, B.6',
-         technique='static analysis: finite-domain path enumeration of saver.read / writer hooks / drain loops (message in {DATA, STOP, Empty}), effect-order rules, provenance of the separator and file-name placeholders, role rule',
+         technique='static analysis: finite-domain path enumeration of saver.read / writer hooks / drain loops (message in {DATA, STOP, Empty}), effect-order rules, provenance of the separator and file-name placeholders, role rule; stop-marker kind; format-guessing helper on a grid',
          text='Decides forward-once-before-return, cache-once, flush = join(cache) + empty, drain -> flush -> close, joiner first/later event typestate, separator = make_silence(...).data, region saver placeholders. File contents under schedules are argued from these facts.',
          note=WORK_NOTE),
     dict(id='C14', engine='E3-fd traces + E3-tokenizer', level='other', design_ref='DESIGN.md 4.14',
